@@ -86,22 +86,12 @@ def run_shard(spec, emit):
     from vf import corpus, eng
     bud = eng.Budget(spec.get("budget_s", 100 if spec["tier"] == "quick" else 2400))
     rng = random.Random(f"C10-{spec['seed']}-{spec['shard']}")
-    cs = [c for c in corpus.scan() if spec["tier"] == "thorough" or not c["area"].startswith("BigProjects")]
-    mine = [c for i, c in enumerate(cs) if i % spec["nshards"] == spec["shard"]]
-    if spec["tier"] == "quick":
-        rng.shuffle(mine)
-        mine = mine[:len(mine) // 4]
-    for c in mine:
-        if not bud.ok():
-            emit({"v": "inc", "why": "cut by wall-clock budget"})
-            break
-        run_corpus_case(c, emit, rop=rng.random() < 0.3)
     try:
         from vf import workloads
     except ImportError:
-        return
-    n = 15 if spec["tier"] == "quick" else 300
-    for case in workloads.generated(rng, n):
+        workloads = None
+    n = 36 if spec["tier"] == "quick" else 600
+    for case in (workloads.generated(rng, n) if workloads else []):
         if not bud.ok():
             break
         status, res = eng.call(eng.run, case["script"], case["structures"], case["datapoints"](), return_only_persistent=False)
@@ -115,6 +105,16 @@ def run_shard(spec, emit):
             continue
         check_result(res, pred, f"gen:{case['family']}", emit, case["replay"], rop=False)
 
+    cs = [c for c in corpus.scan() if spec["tier"] == "thorough" or not c["area"].startswith("BigProjects")]
+    mine = [c for i, c in enumerate(cs) if i % spec["nshards"] == spec["shard"]]
+    if spec["tier"] == "quick":
+        rng.shuffle(mine)
+        mine = mine[:len(mine) // 4]
+    for c in mine:
+        if not bud.ok():
+            emit({"v": "inc", "why": "cut by wall-clock budget"})
+            break
+        run_corpus_case(c, emit, rop=rng.random() < 0.3)
 
 def replay(case, emit):
     if "corpus" in case:
